@@ -44,6 +44,7 @@ else:
         p = subprocess.run(['./check', prop, '--tier', 'quick'], cwd=V, env=env, stdout=subprocess.PIPE, stderr=subprocess.STDOUT, text=True)
         lines = [l for l in p.stdout.split('\n') if l.startswith('VIOLATION') or l.startswith('KNOWN-FINDING') or l.startswith('# ') or l.startswith(prop + ' ')]
         meta['check_exit'] = p.returncode
+        lines = [l for l in lines if not l.startswith('KNOWN-FINDING')] + [l for l in lines if l.startswith('KNOWN-FINDING')]
         meta['check_lines'] = [l[:400] for l in lines][:30]
         meta['check_wall_s'] = round(time.time() - t)
         meta['detected'] = p.returncode == 1 and any(l.startswith('VIOLATION') for l in lines)
